@@ -45,6 +45,14 @@ Part 6  EXECUTED ENUMERATION on the module of the tree under check (backend `enu
 Part 7  compression.py tables (EXECUTED ENUMERATION): compressors <-> decompressors, rev_map == CompressionCodec of the IDL,
         write_column's number -> _read_page's decompressor is the same algorithm, decompress(compress(x)) == x on boundary payloads,
         unknown names refused.
+        OWNERSHIP of the buffer decompress_data returns (STRUCTURAL data-flow analysis of the real source, backend `ast`, not symbolic):
+        `codec.decompress_data.result_is_a_fresh_buffer` - every returned value is either the value of a call (the codec's own return
+        value) or a local every binding of which is an allocation of THIS call (np.empty / np.zeros / bytearray ...), and that local is
+        never stored into - nor bound from - module-level / default-argument / closure state; `codec.module_state_not_mutated[fn]` - no
+        global / nonlocal, no store or mutating method call through a name that is not a local of this call (or through a local that may
+        alias such a name), no mutable default argument.  Plus EXECUTED (backend `enumeration`): per codec, two successive calls with
+        equal uncompressed sizes return arrays that do not share memory and the first result is unchanged after the second call
+        (what core.read_col needs: a numeric dictionary is a zero-copy view of the decompressed dictionary page).
 """
 import ast
 import itertools
@@ -80,6 +88,9 @@ ASSUMED = [
     "codec tables: EXECUTED enumeration on the module imported from the tree under check; decompress(compress(x)) == x is bounded in "
     "the payload dimension (4 boundary payloads per codec: empty, 1 byte, 4096 incompressible bytes, 1 MiB of zeros), not a proof "
     "about cramjam",
+    "buffer ownership (structural): a function taken from the codec tables (cramjam / lambda x: x) neither keeps a reference to its "
+    "output argument nor returns module state: its return value is its own (or, for UNCOMPRESSED, the caller's input); np.empty / "
+    "np.zeros / np.ndarray / bytearray / bytes allocate a new object on every call",
     "codec LZ4 (number 5, DEPRECATED in the format, Hadoop framing 'undocumented' per Compression.md): fastparquet reads and writes the "
     "raw LZ4 block format under both 5 and 7 (source comment in compression.py); the table obligations only demand that reader and "
     "writer agree per number (same policy as spec/pqread.py)",
@@ -1786,6 +1797,193 @@ def check_native_meta(timeout):
 
 
 # =====================================================================================================================
+# Part 7a: ownership of the buffers compress_data / decompress_data hand out (structural data flow on the real source)
+# =====================================================================================================================
+ALLOCATORS = {"np.empty", "np.zeros", "np.ones", "np.ndarray", "numpy.empty", "numpy.zeros", "bytearray", "bytes", "np.empty_like", "np.zeros_like"}
+MUTATORS = {"append", "extend", "insert", "pop", "remove", "clear", "update", "setdefault", "popitem", "add", "discard", "sort", "reverse", "__setitem__",
+            "__delitem__", "fill", "resize", "put", "itemset", "setfield", "setflags"}
+
+
+def _root_name(n):
+    while isinstance(n, (ast.Subscript, ast.Attribute, ast.Starred)):
+        n = n.value
+    return n.id if isinstance(n, ast.Name) else None
+
+
+def ownership(fn_tree):
+    """-> (state_problems, return_problems): structural facts about ONE function's body"""
+    a = fn_tree.args
+    params = {x.arg for x in a.args + a.kwonlyargs + getattr(a, "posonlyargs", [])} | ({a.vararg.arg} if a.vararg else set()) | ({a.kwarg.arg} if a.kwarg else set())
+    state, rets = [], []
+    for d in list(a.defaults) + [d for d in a.kw_defaults if d is not None]:
+        if not (isinstance(d, ast.Constant) or (isinstance(d, ast.Name) and d.id in ("None", "True", "False", "COMPRESSION_LEVEL"))
+                or (isinstance(d, ast.UnaryOp) and isinstance(d.operand, ast.Constant))):
+            state.append(f"default argument `{ast.unparse(d)}` is an object shared between calls")
+    binds = {}                              # local name -> list of value expressions bound to it by plain assignment
+    stores = []                             # (target expression, value expression, statement)
+    for n in ast.walk(fn_tree):
+        if isinstance(n, (ast.Global, ast.Nonlocal)):
+            state.append(f"`{type(n).__name__.lower()} {', '.join(n.names)}`")
+        if isinstance(n, (ast.FunctionDef, ast.Lambda)) and n is not fn_tree:
+            state.append("nested function / lambda (closure state is not modelled)")
+        tg, val = [], None
+        if isinstance(n, ast.Assign):
+            tg, val = list(n.targets), n.value
+        elif isinstance(n, (ast.AugAssign, ast.AnnAssign)):
+            tg, val = [n.target], n.value
+        elif isinstance(n, ast.NamedExpr):
+            tg, val = [n.target], n.value
+        elif isinstance(n, (ast.For, ast.comprehension)):
+            tg, val = [n.target], n.iter
+        elif isinstance(n, ast.With):
+            tg, val = [i.optional_vars for i in n.items if i.optional_vars is not None], None
+        elif isinstance(n, ast.Delete):
+            for t in n.targets:
+                if not isinstance(t, ast.Name):
+                    stores.append((t, None, n))
+        flat = []
+        for t in tg:
+            flat += list(t.elts) if isinstance(t, (ast.Tuple, ast.List)) else [t]
+        for t in flat:
+            if isinstance(t, ast.Name):
+                binds.setdefault(t.id, []).append(val if len(flat) == len(tg) else None)
+            else:
+                stores.append((t, val, n))
+    locals_ = params | set(binds)
+
+    def names_in(e):
+        return {m.id for m in ast.walk(e) if isinstance(m, ast.Name)} if e is not None else set()
+
+    def may_alias_outside(name, seen=()):
+        """a local that may refer to an object living outside this call: bound from an expression rooted at a non-local name
+        (not through a call), or from another such local"""
+        if name in params:
+            return False                    # the caller's object, not module state
+        for v in binds.get(name, []):
+            if v is None:
+                return True
+            if isinstance(v, ast.Call):
+                continue                    # a call's value: the callee's (see ASSUMED)
+            if isinstance(v, ast.Constant):
+                continue
+            r = _root_name(v)
+            if r is None:
+                if any(m not in locals_ for m in names_in(v)):
+                    return True
+                continue
+            if r not in locals_:
+                return True
+            if r != name and r not in seen and may_alias_outside(r, seen + (name,)):
+                return True
+        return False
+
+    for t, val, st in stores:
+        r = _root_name(t)
+        if r is None or r not in locals_:
+            state.append(f"L{st.lineno}: store through the non-local `{r}`: `{ast.unparse(st)[:70]}`")
+        elif may_alias_outside(r):
+            state.append(f"L{st.lineno}: store through `{r}`, which may alias state outside this call: `{ast.unparse(st)[:70]}`")
+    for n in ast.walk(fn_tree):
+        if isinstance(n, ast.Call) and isinstance(n.func, ast.Attribute) and n.func.attr in MUTATORS:
+            r = _root_name(n.func.value)
+            if r is None or r not in locals_ or may_alias_outside(r):
+                state.append(f"L{n.lineno}: mutating call on state outside this call: `{ast.unparse(n)[:70]}`")
+    # ---- what is returned
+    kept = {}                               # local -> places where it is stored into something that outlives the call
+    for t, val, st in stores:
+        for nm in names_in(val) & set(binds):
+            r = _root_name(t)
+            if r is None or r not in locals_ or may_alias_outside(r):
+                kept.setdefault(nm, []).append(f"L{st.lineno} `{ast.unparse(st)[:60]}`")
+    for n in ast.walk(fn_tree):
+        if isinstance(n, ast.Call) and isinstance(n.func, ast.Attribute) and n.func.attr in MUTATORS:
+            r = _root_name(n.func.value)
+            if r is None or r not in locals_ or may_alias_outside(r):
+                for arg in n.args:
+                    for nm in names_in(arg) & set(binds):
+                        kept.setdefault(nm, []).append(f"L{n.lineno} `{ast.unparse(n)[:60]}`")
+    n_ret = 0
+    for n in ast.walk(fn_tree):
+        if not isinstance(n, ast.Return) or n.value is None:
+            continue
+        n_ret += 1
+        v = n.value
+        if isinstance(v, ast.Call):
+            continue                        # the codec's own return value
+        if isinstance(v, ast.Name) and v.id in binds:
+            bad = [b for b in binds[v.id] if not (isinstance(b, ast.Call) and ast.unparse(b.func) in ALLOCATORS)]
+            if bad:
+                rets.append(f"L{n.lineno}: `{v.id}` is returned but bound from " + "; ".join("`%s`" % (ast.unparse(b)[:50] if b is not None else "<unpacking>") for b in bad)
+                            + " - not an allocation of this call")
+            if v.id in kept:
+                rets.append(f"L{n.lineno}: the returned buffer `{v.id}` is also stored where it outlives the call: " + "; ".join(kept[v.id]))
+            continue
+        if isinstance(v, ast.Name) and v.id in params:
+            continue                        # the caller's own object
+        rets.append(f"L{n.lineno}: returns `{ast.unparse(v)[:60]}`: neither a call's value nor a buffer allocated in this call")
+    if n_ret == 0:
+        rets.append("no return statement with a value")
+    return sorted(set(state)), rets
+
+
+def check_codec_ownership(res, C, np, FORMAT, comp, rev):
+    cfuncs, _, _ = parse_module("fastparquet/compression.py")
+    for fn in ("decompress_data", "compress_data"):
+        if fn not in cfuncs:
+            res.add(f"codec.module_state_not_mutated[{fn}]", UNKNOWN, None, 0.0, "ast", "function not found")
+            continue
+        try:
+            state, rets = ownership(cfuncs[fn].tree)
+        except Exception as ex:
+            res.add(f"codec.ownership[{fn}].out_of_reach", UNKNOWN, None, 0.0, "ast", f"{type(ex).__name__}: {ex}")
+            continue
+        res.add(f"codec.module_state_not_mutated[{fn}]", PROVED if not state else REFUTED, None if not state else {"problems": state}, 0.0, "ast",
+                "structural: no global / nonlocal, no store or mutating method call through a name that is not a local of this call (or a local that may alias "
+                "one), no shared default argument: nothing survives from one call to the next")
+        if fn == "decompress_data":
+            res.add("codec.decompress_data.result_is_a_fresh_buffer", PROVED if not rets else REFUTED, None if not rets else {"problems": rets}, 0.0, "ast",
+                    "structural: every returned value is a call's own return value (the codec's) or a local bound ONLY by allocations of this call "
+                    "(np.empty ...), never taken from nor stored into module-level / default-argument / closure state - the caller owns the buffer "
+                    "(core.read_col keeps a zero-copy view of a decompressed dictionary page while the next pages are decompressed)")
+        else:
+            res.add("codec.compress_data.result_is_the_codecs_return_value", PROVED if not rets else REFUTED, None if not rets else {"problems": rets}, 0.0, "ast",
+                    "structural: compress_data returns the value of the codec call")
+    # ---- executed: successive results of equal size do not alias
+    rng = np.random.default_rng(11)
+    n = 4096
+    xa = rng.integers(0, 256, n, dtype="uint8").tobytes()
+    xb = bytes((b ^ 0x5A) for b in xa)
+    for name in sorted(comp):
+        num = FORMAT.get(name)
+        for how, alg in (("number", num), ("name", name.lower())):
+            if alg is None:
+                continue
+            t1 = time.time()
+            prob = None
+            try:
+                ca, cb = bytes(C.compress_data(xa, name)), bytes(C.compress_data(xb, name))
+                # every call gets its OWN input object, as every page is its own read (UNCOMPRESSED hands the input back: the caller's object)
+                r1 = C.decompress_data(bytes(bytearray(ca)), n, alg)
+                first = bytes(r1)
+                r2 = C.decompress_data(bytes(bytearray(cb)), n, alg)
+                after_second = bytes(r1)
+                r3 = C.decompress_data(bytes(bytearray(ca)), n, alg)                   # same size AND same content as the first call
+                v1, v2, v3 = (np.frombuffer(memoryview(r), dtype="uint8") if not isinstance(r, np.ndarray) else r for r in (r1, r2, r3))
+                shared = bool(np.shares_memory(v1, v2) or np.shares_memory(v1, v3) or np.shares_memory(v2, v3))
+                same_obj = r1 is r2 or r1 is r3 or r2 is r3
+                ok = (not shared) and (not same_obj) and after_second == first == xa and bytes(r1) == xa and bytes(r2) == xb and bytes(r3) == xa
+                if not ok:
+                    prob = {"codec": name, "codec_given_as": how, "uncompressed_size": n, "results_share_memory": shared, "same_object": same_obj,
+                            "first_result_unchanged_after_second_call": after_second == first, "first_result_holds_second_payload_after_second_call": after_second == xb,
+                            "first_result_is_first_payload": first == xa}
+            except Exception as ex:
+                prob = {"codec": name, "raised": f"{type(ex).__name__}: {ex}"}
+            res.add(f"codec.decompress_data.successive_results_do_not_alias[{name}]", PROVED if prob is None else REFUTED, prob, time.time() - t1, "enumeration",
+                    "two (three) successive decompress_data calls with EQUAL uncompressed size return arrays that do not share memory (np.shares_memory), and the "
+                    "first result still holds the first payload after the later calls - executed, bounded: 4096-byte payloads, codec given by number and by name")
+
+
+# =====================================================================================================================
 # Part 7: codec tables
 # =====================================================================================================================
 def check_codecs(timeout):
@@ -1872,6 +2070,11 @@ def check_codecs(timeout):
                 res.add(f"codec.roundtrip[{name}][{pn}]", PROVED if prob is None else REFUTED, prob, time.time() - t1, "enumeration",
                         "decompress(compress(x)) == x through decompress_data(bytes, len, NUMBER), through decompressions[name] and (where present) decom_into - "
                         "bounded: this one payload")
+    # ownership of the returned buffers (structural + executed aliasing check); on its own so that a failure here silences nothing else
+    try:
+        check_codec_ownership(res, C, np, FORMAT_CODECS, comp, rev)
+    except Exception as ex:
+        res.add("codec.ownership.out_of_reach", UNKNOWN, None, 0.0, "engine", f"{type(ex).__name__}: {ex}")
     # refusals
     absent = [k for k in FORMAT_CODECS if k not in comp]
     refused = {}
